@@ -1,9 +1,12 @@
 import FloVerif.Driver.Util
 import FloVerif.Driver.C18
 import FloVerif.Gen.Fit
+import FloVerif.Driver.C10
+import FloVerif.Model.FitKernel
 /-! Correspondence for C08: the block boundaries the generated block loop predicts must be joints of the real result. -/
 namespace Driver.C08
 open Prelude Gen Driver Driver.C18
+open Driver.C10 (biteq allBiteq fl showL v2l cubl)
 
 /-- block start indices as the generated `fit_curve` computes them (a fitter that records its slice's first index) -/
 def blockStarts (n : Nat) : List Nat :=
@@ -11,6 +14,10 @@ def blockStarts (n : Nat) : List Nat :=
   match fit_curve (K := Float) (P := Nat) (C := Nat) (fun ps _ _ _ => [ps.headD 0]) (fun _ => 0) (fun _ => 0) pts 1.0 with
   | some l => l
   | none => []
+
+def pts : List Float → List (V2 Float)
+  | x :: y :: rest => ⟨x, y⟩ :: pts rest
+  | _ => []
 
 def handle (op : String) (ins outs : List String) : List Out :=
   match op with
@@ -23,6 +30,33 @@ def handle (op : String) (ins outs : List String) : List Out :=
     let modelSome := (fit_curve (K := Float) (P := Nat) (C := Nat) (fun ps _ _ _ => [ps.headD 0]) (fun _ => 0) (fun _ => 0) (List.range n) 1.0).isSome
     [mk "none_iff" (modelSome == (isSome == 1)) s!"n={n}: model some={modelSome} impl some={isSome}",
      mk "block_starts_are_joints" (starts.all (fun s => joints.contains s)) s!"n={n}: model block starts {starts} not all among the implementation's joints {joints}"]
+  | "fit" =>
+    -- ins: max_error #n x0 y0 x1 y1 ...; outs: #isSome #k then 8 numbers per curve.  The WHOLE generated fitter at Float, bit for bit.
+    let me := fl (ins.getD 0 "0")
+    let n := parseNat (ins.getD 1 "0")
+    let coords := ((ins.drop 2).take (2 * n)).map fl
+    let model := Model.FitKernel.fitCurveGen (K := Float) (pts coords) me
+    let isSome := parseNat (outs.getD 0 "0")
+    let k := parseNat (outs.getD 1 "0")
+    let impl := ((outs.drop 2).take (8 * k)).map fl
+    match model with
+    | none => [mk "fit_curve.none_iff" (isSome == 0) s!"model None, implementation Some of {k} curves"]
+    | some cs =>
+      let flat := cs.flatMap cubl
+      [mk "fit_curve.none_iff" (isSome == 1) "model Some, implementation None",
+       mk "fit_curve.curve_count" (cs.length == k) s!"model {cs.length} curves, implementation {k}",
+       mk "fit_curve.control_points" (allBiteq flat impl) s!"model {showL (flat.take 16)} ... impl {showL (impl.take 16)} ..."]
+  | "cubic" =>
+    -- ins: max_error st(2) et(2) #n points; outs: #k curves.  `fit_curve_cubic` with the caller's tangents, bit for bit.
+    let hd := (ins.take 5).map fl
+    let n := parseNat (ins.getD 5 "0")
+    let ps := pts (((ins.drop 6).take (2 * n)).map fl)
+    let model := Model.FitKernel.fitCubicGen (K := Float) (ps.length + 1) ps ⟨hd.getD 1 0, hd.getD 2 0⟩ ⟨hd.getD 3 0, hd.getD 4 0⟩ (hd.getD 0 0)
+    let k := parseNat (outs.getD 0 "0")
+    let impl := ((outs.drop 1).take (8 * k)).map fl
+    let flat := model.flatMap cubl
+    [mk "fit_curve_cubic.curve_count" (model.length == k) s!"model {model.length} curves, implementation {k}",
+     mk "fit_curve_cubic.control_points" (allBiteq flat impl) s!"model {showL (flat.take 16)} ... impl {showL (impl.take 16)} ..."]
   | _ => [mk ("unknown-op " ++ op) false "driver does not know this operation"]
 
 end Driver.C08
